@@ -415,6 +415,12 @@ func (p *Prog) checkNonNilGlobal(g *ssa.Global) string {
 		}
 	}
 	nonNilCall := map[string]bool{"errors.New": true, "fmt.Errorf": true, "regexp.MustCompile": true}
+	// a package variable of a type without nil (string, number, bool): only "assigned once, in the
+	// package initialiser" is claimed
+	scalar := false
+	if b, ok := g.Type().(*types.Pointer).Elem().Underlying().(*types.Basic); ok && b.Kind() != types.UnsafePointer {
+		scalar = true
+	}
 	var okInit bool
 	for fn := range p.allFns {
 		for _, b := range fn.Blocks {
@@ -425,6 +431,13 @@ func (p *Prog) checkNonNilGlobal(g *ssa.Global) string {
 				}
 				if fn.Synthetic != "package initializer" || fn.Pkg != g.Pkg {
 					return "assigned outside the package initializer: " + fn.String()
+				}
+				if scalar {
+					if okInit {
+						return "assigned more than once"
+					}
+					okInit = true
+					continue
 				}
 				switch v := st.Val.(type) {
 				case *ssa.Call:
